@@ -374,6 +374,7 @@ def run_unit(args):
             I.depth = 0
             I.exc_stack = []
             v = S.V(unit, I, st)
+            v.tier = tier
             unit.body(v)
             return v
 
